@@ -51,6 +51,12 @@ def _reads_attr(text: str, base: str) -> bool:
     return t in (f"self.{base}", f"self._{base}")
 
 
+def _all_returns(fi, accepted) -> bool:
+    """Every return statement of the function returns one of the accepted expressions (no shortcut path returns anything else)."""
+    rets = [U(n.value) if n.value is not None else "None" for n in ast.walk(fi.node) if isinstance(n, ast.Return)]
+    return bool(rets) and all(r in accepted for r in rets)
+
+
 def run(ctx):
     m = ctx.model
     HB, BB = m.cls("HistogramBase"), m.cls("BinningBase")
@@ -206,7 +212,7 @@ def run(ctx):
     # from_dict is cls(**kwargs) of that chain
     fd = HB.methods.get("from_dict")
     ctx.saw(fd)
-    okfd = any(isinstance(n, ast.Return) and U(n.value) == "cls(**kwargs)" for n in ast.walk(fd.node)) and \
+    okfd = _all_returns(fd, ("cls(**kwargs)",)) and \
         any(isinstance(n, ast.Assign) and U(n.value) == "cls._kwargs_from_dict(a_dict)" for n in ast.walk(fd.node))
     ctx.check(okfd, "C08.a", "HistogramBase.from_dict", "cls(**cls._kwargs_from_dict(a_dict))", "from_dict is not cls(**cls._kwargs_from_dict(a_dict))", fd.where)
 
@@ -249,7 +255,7 @@ def run(ctx):
                                    if isinstance(n, (ast.Assign, ast.AnnAssign)) and isinstance(n.value, ast.Dict)})
     bfd = BB.methods["from_dict"]
     popped = {const_value(c.args[0]) for c in calls_in(bfd.node) if isinstance(c.func, ast.Attribute) and c.func.attr == "pop" and c.args}
-    okb = any(isinstance(n, ast.Return) and U(n.value) == "klass(**a_dict)" for n in ast.walk(bfd.node)) and \
+    okb = _all_returns(bfd, ("klass(**a_dict)",)) and \
         any(U(c.func) == "find_subclass" and U(c.args[0]) == "BinningBase" for c in calls_in(bfd.node))
     ctx.check(okb and popped == {"binning_type"}, "C08.b", "BinningBase.from_dict", "pops binning_type, finds the subclass, klass(**a_dict)",
               "BinningBase.from_dict no longer builds klass(**a_dict) from the named subclass", bfd.where)
@@ -337,7 +343,7 @@ def run(ctx):
     cfd = m.func("io.util", "create_from_dict")
     ctx.saw(cfd)
     ok = any(U(c.func) == "find_subclass" and U(c.args[0]) == "HistogramBase" for c in calls_in(cfd.node)) and \
-        any(isinstance(n, ast.Return) and U(n.value) == "klass.from_dict(data)" for n in ast.walk(cfd.node))
+        _all_returns(cfd, ("klass.from_dict(data)", "HistogramCollection.from_dict(data)"))
     ctx.check(ok, "C08.d", "create_from_dict:class-lookup", "find_subclass(HistogramBase, histogram_type).from_dict(data)",
               "create_from_dict does not build the named subclass from the dictionary", cfd.where)
 
@@ -424,5 +430,5 @@ def run(ctx):
     ctx.check(okc, "C08.f", "HistogramCollection.to_dict", "histograms = [h.to_dict() for h in self.histograms]", "collection to_dict does not serialise every member", ctd.where)
     gens = [n for n in ast.walk(cfdm.node) if isinstance(n, (ast.GeneratorExp, ast.ListComp))]
     okr = any("a_dict['histograms']" in U(g.generators[0].iter) and not g.generators[0].ifs and "create_from_dict(item" in U(g.elt) for g in gens) and \
-        any(isinstance(n, ast.Return) and U(n.value) == "HistogramCollection(*histograms)" for n in ast.walk(cfdm.node))
+        _all_returns(cfdm, ("HistogramCollection(*histograms)",))
     ctx.check(okr, "C08.f", "HistogramCollection.from_dict", "every item of a_dict['histograms'] is rebuilt", "collection from_dict does not rebuild every member", cfdm.where)
